@@ -315,10 +315,53 @@ def threads_world(aiu, w, prefix=(), expect=None):
     return x
 
 
+def two_wrappers(aiu, form_pair, opts_a, opts_b, order):
+    """The same batch function wrapped twice with different options, both used in one loop."""
+    obs = B.Obs()
+
+    async def main():
+        loop = asyncio.get_running_loop()
+        func = B.make_func(obs, loop._world, {}, 'fwd', 0.0, 0.0)
+
+        def mk(form, opts):
+            if form == 'class':
+                return aiu.AsyncBackgroundBatcher(func, **opts)
+            if form == 'func':
+                return aiu.async_background_batcher(func, **opts)
+            return aiu.async_background_batcher(**opts)(func)
+        wa, wb = mk(form_pair[0], opts_a), mk(form_pair[1], opts_b)
+        seq = [(wa, 100), (wb, 200)] if order == 'ab' else [(wb, 200), (wa, 100)]
+        for w_, base in seq:
+            await asyncio.gather(*(w_(base + i) for i in range(5)))
+            await asyncio.sleep(3.0)
+        return True
+    run = run_main(main)
+    return (tuple((b['start'], tuple(k for k, _ in b['items'])) for b in obs.batches), run.hang, repr(run.error))
+
+
 def run_case(item):
     from aiuti import asyncio as aiu
     st = Stats()
     kind = item[0]
+    if kind == 'twowrap':
+        for oa, ob in (({'max_batch_size': 2}, {'max_batch_size': 5}),
+                       ({'batch_timeout': 1.0}, {'batch_timeout': 0.25}),
+                       ({'max_batch_size': 2, 'max_concurrent_batches': 1}, {})):
+            for order in ('ab', 'ba'):
+                ref = two_wrappers(aiu, ('class', 'class'), oa, ob, order)
+                for fp in (('deco', 'func'), ('func', 'deco'), ('deco', 'deco'), ('func', 'func')):
+                    got = two_wrappers(aiu, fp, oa, ob, order)
+                    st.executions += 1
+                    st.transitions += 10
+                    st.sig(('twowrap', repr(oa), repr(ob), order, fp, got))
+                    if got != ref:
+                        st.violation('option_not_applied',
+                                     f'one batch function wrapped twice ({fp[0]} form with {oa}, {fp[1]} form with '
+                                     f'{ob}), used in one loop in order {order}: batches {got[0]} but two class '
+                                     f'batchers with the same options give {ref[0]}',
+                                     {'mode': 'twowrap', 'oa': oa, 'ob': ob, 'order': order, 'forms': fp})
+        st.sample({'mode': 'two wrappers of one batch function with different options in one loop'})
+        return st
     if kind == 'threads':
         from mc import tx
         _, w, pb, shard, nsh = item
@@ -453,7 +496,7 @@ def main(tier):
     names = list(BATCHER_OPTS)
     plan = [('batcher', ())] + [('batcher', (n,)) for n in names] + [('batcher', tuple(names))]
     plan += [('batcher', c) for c in itertools.combinations(names, 2)] if tier != 'quick' else []
-    plan += [('buffer', 0.25), ('buffer', 3.0), ('cache',)]
+    plan += [('buffer', 0.25), ('buffer', 3.0), ('cache',), ('twowrap',)]
     plan += [('multi', n, ko, R) for n in (1, 2, 3) for ko in (False, True) for R in (0.0, 2.0)]
     plan += [('alt', n, R, ln) for n in (2, 3) for R in (0.0, 2.0) for ln in ((2, 3, 4) if tier == 'quick' else (2, 3, 4, 5))]
     for nl, pb, rounds in ((2, 1, 2), (3, 1, 1)) if tier == 'quick' else ((2, 2, 2), (3, 1, 2)):
